@@ -77,6 +77,11 @@ class Entry:
 
             async def __aexit__(s, et, ev, tb):
                 return ent.act(log, ev)
+        if ent.id % 2:
+            # an object supporting both protocols: `async with`, enter_context and push all use the asynchronous one
+            def wrong(s, *a):
+                raise AssertionError("the synchronous protocol of a dual-protocol manager was used")
+            ACM.__enter__ = ACM.__exit__ = wrong
         return ACM()
 
     def as_scm(self, log, enter_fails=False):
